@@ -1969,11 +1969,14 @@ namespace cds { namespace intrusive {
             {
                 rcu_lock l;
 
-                if ( !find_min_position( pos )) {
-                    m_Stat.onExtractMinFailed();
-                    pDel = nullptr;
-                }
-                else {
+                for ( ;; ) {
+                    if ( !find_min_position( pos )) {
+                        // The list is empty
+                        m_Stat.onExtractMinFailed();
+                        pDel = nullptr;
+                        break;
+                    }
+
                     pDel = pos.pCur;
                     unsigned int const nHeight = pDel->height();
 
@@ -1981,11 +1984,10 @@ namespace cds { namespace intrusive {
                         --m_ItemCounter;
                         m_Stat.onRemoveNode( nHeight );
                         m_Stat.onExtractMinSuccess();
+                        break;
                     }
-                    else {
-                        m_Stat.onExtractMinFailed();
-                        pDel = nullptr;
-                    }
+
+                    // the node is being removed by another thread: retry, as the HP-based SkipListSet does
                 }
             }
 
@@ -2002,11 +2004,14 @@ namespace cds { namespace intrusive {
             {
                 rcu_lock l;
 
-                if ( !find_max_position( pos )) {
-                    m_Stat.onExtractMaxFailed();
-                    pDel = nullptr;
-                }
-                else {
+                for ( ;; ) {
+                    if ( !find_max_position( pos )) {
+                        // The list is empty
+                        m_Stat.onExtractMaxFailed();
+                        pDel = nullptr;
+                        break;
+                    }
+
                     pDel = pos.pCur;
                     unsigned int const nHeight = pDel->height();
 
@@ -2014,11 +2019,10 @@ namespace cds { namespace intrusive {
                         --m_ItemCounter;
                         m_Stat.onRemoveNode( nHeight );
                         m_Stat.onExtractMaxSuccess();
+                        break;
                     }
-                    else {
-                        m_Stat.onExtractMaxFailed();
-                        pDel = nullptr;
-                    }
+
+                    // the node is being removed by another thread: retry, as the HP-based SkipListSet does
                 }
             }
 
